@@ -487,6 +487,11 @@ fn c07_items(tier: Tier) -> Vec<C07Item> {
         }
         items.push(C07Item { cfgs, horizon: None });
     }
+    if !q {
+        // an FFT block of more than 10^5 frames (coprime rates): one fixed-output configuration,
+        // followed for 400 calls (the block is produced once and drained over 127 calls)
+        items.push(C07Item { cfgs: vec![(Cfg::fft(Kind::XO, 131072, 131071, 1024, 1), vec![])], horizon: Some(400) });
+    }
     for (a, b) in pairs {
         let mut cfgs = Vec::new();
         let chunks: Vec<usize> = if a > 100 { if q { vec![64, 1000] } else { vec![64, 1000, 10000] } } else { (1..=maxchunk).collect() };
